@@ -461,8 +461,15 @@ boundarySearch:
 		case !skippedStableVersion:
 			// Skip versions until the stable version.
 		default:
-			// All required version skipped, set purge boundary.
-			purgeBoundary = i + keepExtra
+			// All required version skipped, set purge boundary behind the
+			// extra versions to keep. Only versions that are available locally
+			// count, as only these are retained files.
+			purgeBoundary = i
+			for kept := 0; kept < keepExtra && purgeBoundary < len(res.Versions); purgeBoundary++ {
+				if res.Versions[purgeBoundary].Available {
+					kept++
+				}
+			}
 			break boundarySearch
 		}
 
